@@ -196,9 +196,17 @@ private:
         const std::vector<std::string>& topics,
         const unsubscribe_props& props
     ) {
-        for (const auto& topic : topics)
-            if (validate_topic_filter(topic) != validation_result::valid)
+        for (const auto& topic : topics) {
+            std::string_view topic_filter = topic;
+            bool shared = topic_filter.compare(
+                0, shared_sub_prefix.size(), shared_sub_prefix
+            ) == 0;
+            auto result = shared ?
+                validate_shared_topic_filter(topic_filter) :
+                validate_topic_filter(topic_filter);
+            if (result != validation_result::valid)
                 return client::error::invalid_topic;
+        }
 
         const auto& user_properties = props[prop::user_property];
         for (const auto& user_property: user_properties)
